@@ -130,8 +130,14 @@ pub fn run_front(c: &Case) -> Out<Interval<f64>> {
         7 => {
             let mut s = proportion::Stats::default();
             let data: Vec<f64> = (0..c.n).map(|i| if is_success(c.pattern, i, c.n, c.k) { 0.25 } else { 0.75 }).collect();
-            if c.pattern % 2 == 0 {
+            if c.pattern % 4 == 0 {
                 s.extend_if(&data, |&x| x <= 0.5);
+            } else if c.pattern % 4 == 2 {
+                // in two batches (and an empty one): a batch adds to what the state already holds
+                let cut = data.len() / 3;
+                s.extend_if(&data[..cut].to_vec(), |&x| x <= 0.5);
+                s.extend_if(&Vec::<f64>::new(), |&x| x <= 0.5);
+                s.extend_if(&data[cut..].to_vec(), |&x| x <= 0.5);
             } else {
                 let calls = std::cell::Cell::new(0u64);
                 s.extend_if(&data, |_| {
